@@ -122,7 +122,7 @@ pub fn build_image(env: &mut Env, leaf: &Leaf) -> Option<DmgImage> {
             if let COp::Trunc { q, pos } = &rec.cop {
                 d.truncs.push((q.clone(), *pos));
             }
-            if matches!(op, Op::Append { sizes, .. } if sizes.contains(&Sz::Emb)) {
+            if matches!(op, Op::Append { sizes, .. } if sizes.contains(&Sz::Emb) || sizes.contains(&Sz::EmbTail)) {
                 d.emb_frames.push(k);
             }
             d.cops.push(rec.cop);
@@ -270,38 +270,7 @@ pub fn c08_leaf(env: &mut Env, leaf: &Leaf) {
     };
     env.stats.traces += 1;
     let dir = env.scratch2.path.clone();
-    let mut faults: Vec<(Patch, serde_json::Value, bool)> = vec![];
-    // (a) byte faults
-    for (file, bytes) in &d.image {
-        for off in fault_positions(&d, file, bytes.len()) {
-            for v in byte_values(bytes[off]) {
-                faults.push((vec![(file.clone(), off, vec![v])], json!({"kind":"byte","file":file,"offset":off,"value":v}), false));
-            }
-        }
-        // (b) zero-fill ranges
-        let lens: Vec<usize> = if TINY { vec![2, 4, 7, 8, 16, BLOCK, FILE] } else { vec![7, 64, BLOCK] };
-        for l in lens {
-            let starts: Vec<usize> = if TINY { (0..bytes.len().saturating_sub(l - 1)).collect() } else { fault_positions(&d, file, bytes.len()).into_iter().filter(|o| o + l <= bytes.len()).collect() };
-            for s in starts {
-                faults.push((vec![(file.clone(), s, vec![0u8; l])], json!({"kind":"zero-range","file":file,"offset":s,"len":l}), false));
-            }
-        }
-    }
-    // (c) length-field retargeting
-    for f in &d.frames {
-        let values: Vec<usize> = if TINY {
-            (0..=BLOCK).collect()
-        } else {
-            let rem = BLOCK - f.offset % BLOCK;
-            let mut v = vec![0, 1, 2, 23, 24, 25, f.len - 7 - 1, f.len - 7 + 1, rem - 8, rem - 7, rem - 6, BLOCK - 1, BLOCK, 65535];
-            v.retain(|x| *x <= 65535);
-            v
-        };
-        for val in values {
-            let le = (val as u16).to_le_bytes().to_vec();
-            faults.push((vec![(f.file.clone(), f.offset + 4, le)], json!({"kind":"length-field","file":f.file,"frame_offset":f.offset,"new_len":val,"frame_owner_op":f.op}), d.emb_frames.contains(&f.op)));
-        }
-    }
+    let faults = inplace_faults(&d);
     for (patch, descr, on_emb_carrier) in faults {
         let Some(img) = apply_patch(&d.image, &patch) else { continue };
         env.stats.evaluations += 1;
@@ -313,7 +282,7 @@ pub fn c08_leaf(env: &mut Env, leaf: &Leaf) {
                 env.stats.state(&hash_of(&obs));
                 env.stats.nontrivial(&(hash_of(&obs), descr["kind"].as_str().map(|s| s.to_string())));
                 if let Err((q, p, b, why)) = genuine(&d, &obs) {
-                    let emb = on_emb_carrier && (q.clone(), p, b.clone()) == emb_record();
+                    let emb = on_emb_carrier && (q.clone(), p, b.clone()) == emb_record() && descr["kind"] == "length-field";
                     env.stats.violation(Violation {
                         property: "C08".into(),
                         signature: if emb { "length-fault-exposes-frame-shaped-payload".into() } else { format!("phantom-record-{}", why) },
@@ -326,6 +295,60 @@ pub fn c08_leaf(env: &mut Env, leaf: &Leaf) {
             Opened::Panic(_) => env.stats.outcome("open-panicked(not C08's question)"),
         }
     }
+}
+
+/// C10, third part: the in-place fault menu of C08 with the no-panic / no-hang oracle.
+pub fn c10_inplace_leaf(env: &mut Env, leaf: &Leaf) {
+    let Some(d) = build_image(env, leaf) else {
+        env.stats.diverged += 1;
+        return;
+    };
+    env.stats.traces += 1;
+    let dir = env.scratch2.path.clone();
+    for (patch, descr, _) in inplace_faults(&d) {
+        let Some(img) = apply_patch(&d.image, &patch) else { continue };
+        env.stats.nontrivial(&(hash_of(&img), 2));
+        c10_eval(env, &dir, &img, || case_json(leaf, descr));
+    }
+}
+
+fn inplace_faults(d: &DmgImage) -> Vec<(Patch, serde_json::Value, bool)> {
+    let mut faults: Vec<(Patch, serde_json::Value, bool)> = vec![];
+    // (a) byte faults
+    for (file, bytes) in &d.image {
+        for off in fault_positions(d, file, bytes.len()) {
+            for v in byte_values(bytes[off]) {
+                faults.push((vec![(file.clone(), off, vec![v])], json!({"kind":"byte","file":file,"offset":off,"value":v}), false));
+            }
+        }
+        // (b) zero-fill ranges
+        let lens: Vec<usize> = if TINY { vec![2, 4, 7, 8, 16, BLOCK, FILE] } else { vec![7, 64, BLOCK] };
+        for l in lens {
+            let starts: Vec<usize> = if TINY { (0..bytes.len().saturating_sub(l - 1)).collect() } else { fault_positions(d, file, bytes.len()).into_iter().filter(|o| o + l <= bytes.len()).collect() };
+            for s in starts {
+                faults.push((vec![(file.clone(), s, vec![0u8; l])], json!({"kind":"zero-range","file":file,"offset":s,"len":l}), false));
+            }
+        }
+    }
+    // (c) length-field retargeting
+    for f in &d.frames {
+        let values: Vec<usize> = if TINY {
+            (0..=BLOCK).collect()
+        } else {
+            let rem = BLOCK - f.offset % BLOCK;
+            let pl = f.len - 7;
+            let mut v = vec![0, 1, 2, 23, 24, 25, pl.saturating_sub(1), pl + 1, pl / 2, rem.saturating_sub(8), rem - 7, rem - 6, rem - 1, rem, BLOCK - 1, BLOCK, 65535];
+            v.sort();
+            v.dedup();
+            v.retain(|x| *x <= 65535);
+            v
+        };
+        for val in values {
+            let le = (val as u16).to_le_bytes().to_vec();
+            faults.push((vec![(f.file.clone(), f.offset + 4, le)], json!({"kind":"length-field","file":f.file,"frame_offset":f.offset,"new_len":val,"frame_owner_op":f.op}), d.emb_frames.contains(&f.op)));
+        }
+    }
+    faults
 }
 
 /// Frame-aimed alterations: every payload byte and CRC byte (+1, xor 0xFF, zero), whole payload
@@ -351,6 +374,12 @@ fn frame_faults(d: &DmgImage, f: &FrameInfo) -> Vec<(Patch, serde_json::Value)> 
             if val != o {
                 v.push((vec![(f.file.clone(), off, vec![val])], json!({"kind":"frame-byte","file":f.file,"frame_offset":f.offset,"frame_len":f.len,"byte_offset":off,"part": if off < f.offset + 4 {"crc"} else {"payload"},"alteration":name,"frame_owner_op":f.op})));
             }
+        }
+    }
+    for (name, crc) in [("crc-zeroed", vec![0u8; 4]), ("crc-ff", vec![0xFFu8; 4]), ("crc-inverted", bytes[f.offset..f.offset + 4].iter().map(|b| !b).collect::<Vec<u8>>())] {
+        v.push((vec![(f.file.clone(), f.offset, crc.clone())], json!({"kind":"frame-crc","file":f.file,"frame_offset":f.offset,"frame_len":f.len,"alteration":name,"frame_owner_op":f.op})));
+        if f.len > 7 {
+            v.push((vec![(f.file.clone(), f.offset, crc), (f.file.clone(), f.offset + 7, vec![0u8; f.len - 7])], json!({"kind":"frame-crc+payload","file":f.file,"frame_offset":f.offset,"frame_len":f.len,"alteration":format!("{}+payload-zeroed", name),"frame_owner_op":f.op})));
         }
     }
     if f.len > 7 {
@@ -708,6 +737,25 @@ pub fn embedded_frame_payload() -> Vec<u8> {
     e.extend_from_slice(&EMB_POSITION.to_le_bytes());
     e.extend_from_slice(&0u32.to_le_bytes());
     crc_frame(1, &e)
+}
+
+fn embedded_entry() -> Vec<u8> {
+    let mut e = vec![4u8];
+    e.extend_from_slice(&EMB_POSITION.to_le_bytes());
+    e.extend_from_slice(&1u16.to_le_bytes());
+    e.push(b'a');
+    e.extend_from_slice(&EMB_POSITION.to_le_bytes());
+    e.extend_from_slice(&0u32.to_le_bytes());
+    e
+}
+
+/// A record payload which, appended to a 1-byte-named queue at a block start, fills the first
+/// frame and leaves exactly the image of a serialized entry in the second (Last) frame.
+pub fn embedded_tail_payload() -> Vec<u8> {
+    let first_frame_record_bytes = BLOCK - 7 - (11 + 1 + 12);
+    let mut v: Vec<u8> = (0..first_frame_record_bytes).map(|i| (i % 200 + 17) as u8).collect();
+    v.extend_from_slice(&embedded_entry());
+    v
 }
 
 fn crafted_entries() -> Vec<(String, Vec<u8>)> {
